@@ -248,8 +248,10 @@ def r2_mem(cx):
     _, _, ops = aggs[0]
     cr = pv.root(f, ops["count"])
     count_src = None
-    if cr[0] == "call" and cr[1].endswith("Vec::<T, A>::len"):
+    if cr[0] == "call" and (cr[1].endswith("Vec::<T, A>::len") or re.search(r"slice::<impl \[T\]>::len$", cr[1])):
         count_src = pa.root(f, Call(f, cr[2]).args[0])
+    elif cr[0] == "len":
+        count_src = cr[1]
     # rows: follow the iterator chain back to its source vector, noting skip/take
     r = pv.root(f, ops["rows"])
     chain = []
@@ -273,22 +275,39 @@ def r2_mem(cx):
           "memory query: `count` is the length of the filtered vector from which the page is then cut by skip/take", f.loc(),
           count=root_str(cr), rows_chain=chain, source=root_str(src) if src else None)
     # the length is taken of the vector *before* skip/take: no skip/take feeds the vector itself
-    defs = [d for d in f.defs().get(count_src[1], [])] if count_src and count_src[0] == "local" else []
-    feeds = []
-    for d in defs:
-        if d[2] == "call":
-            q = d[3][1].get("q", "")
-            rr = ("call", q, d[0], ())
+    from vlib.model import strip_try
+
+    def chains(rr, depth=0):
+        """the iterator-adaptor names through which the vector denoted by root rr was produced, one list per definition"""
+        rr = strip_try(f, pa, rr)
+        if depth > 6:
+            return [["?"]]
+        if rr[0] == "call":
             names = []
             for _ in range(20):
                 names.append(rr[1].split("::")[-1])
-                if rr[0] == "call" and re.search(r"Iterator::(collect|map|filter_map|skip|take)$", rr[1]):
-                    rr = pa.root(f, Call(f, rr[2]).args[0])
+                if rr[0] == "call" and re.search(r"Iterator::(collect|map|filter_map|filter|skip|take|rev|cloned|copied)$|::iter$|::into_iter$|Deref>::deref$", rr[1]):
+                    rr = strip_try(f, pa, pa.root(f, Call(f, rr[2]).args[0]))
                     if rr[0] != "call":
+                        if rr[0] == "local":
+                            return [names + c_ for c_ in chains(rr, depth + 1)]
                         break
                 else:
                     break
-            feeds.append(names)
+            return [names]
+        if rr[0] == "local":
+            out = []
+            for d in f.defs().get(rr[1], []):
+                if d[2] == "call":
+                    out += chains(("call", d[3][1].get("q", ""), d[0], ()), depth + 1)
+                elif d[2] == "assign" and d[3][0] == "agg" and d[3][1].endswith("result::Result") and d[3][2] == "Ok":
+                    out += chains(pa.root(f, d[3][4][0]), depth + 1)
+                elif d[2] == "assign" and d[3][0] == "use" and d[3][1][0] != "k":
+                    out += chains(pa.root(f, d[3][1]), depth + 1)
+            return out
+        return []
+
+    feeds = chains(count_src) if count_src else []
     bad = [n for n in feeds if "skip" in n or "take" in n]
     cx.ob("C10.R2", "mem:count-before-paging", not bad and bool(feeds),
           "memory query: no skip/take is applied to the vector whose length is reported as count", f.loc(), feeds=feeds)
